@@ -17,8 +17,8 @@ MANIFEST = {
             "searched on the implementation through the library loop and the real blots --format binary",
     "note": "trusted: Coq kernel + vm_compute; hand transcription of formatter.rs and of both driver loops (validated "
             "by the FORMAT correspondence, incl. second pass); the pest parser is not modelled: that the formatter's "
-            "text re-parses to the same AST is property C07's, here it is tested on the implementation and inputs "
-            "where it already fails (F12-F14, F18) are a known-finding class decided on the input; no axioms",
+            "text re-parses to the same AST is property C07's, here it is only tested on the implementation (no "
+            "exclusion: any idempotence failure is a violation); no axioms",
     "design_ref": "DESIGN.md section 6 C08; notes/C08.md",
 }
 
@@ -41,23 +41,18 @@ def idem_failures(h, cases):
 
 
 def classify(h, fails):
-    """known-finding class of each failure, decided on the INPUT:
-       C07-roundtrip  the formatter's output for this input does not re-parse to the input's AST
-                      (comments and spans ignored): property C07 already fails on this input
-                      (F12-F14 dropped parentheses, F18 `if` + newline)"""
+    """No open known-finding class is left for C08 (F29 and the C07 round-trip defects F12-F14 / F18 are
+    repaired in /repo): every failure is a violation.  For triage the replay records whether the first
+    output still re-parses to the input's comment-free AST (if not, property C07 fails on the input too)."""
     src_ast = stripped_asts(h, [f[0].src for f in fails])
     out_ast = stripped_asts(h, [f[2][1] for f in fails])
-    res = []
-    for f, a, b in zip(fails, src_ast, out_ast):
-        if a != b:
-            res.append("C07-roundtrip")
-        else:
-            res.append(None)
-    return res
+    return [("first output re-parses to the same AST" if a == b else
+             "first output does NOT re-parse to the input's AST (C07 fails on this input as well)")
+            for a, b in zip(src_ast, out_ast)]
 
 
 def shrink(h, clir, sc, driver):
-    """smaller program that is still not idempotent while its first output re-parses to the same AST"""
+    """smaller program that is still not idempotent"""
     def fmt(s):
         return clir.format(s) if driver == "cli" else L.impl_format(h, [(s, sc.width, "lib")])[0]
 
@@ -68,8 +63,7 @@ def shrink(h, clir, sc, driver):
         b = fmt(a[1])
         if b == a:
             return False
-        x, y = stripped_asts(h, [s, a[1]])
-        return x == y and x != "REJECT"
+        return True
     return L.shrink_lines(sc.src, pred)
 
 
@@ -125,12 +119,10 @@ def main(argv):
         classes = classify(h, fails)
         known_hits = {}
         for (sc, driver, a, b), k in zip(fails, classes):
-            if k is not None:
-                known_hits[k] = known_hits.get(k, 0) + 1
-                continue
             if len(res.violations) < 5:
                 res.violation("formatting the formatter's own output changes it (%s driver)" % driver,
                               {"kind": "impl-law", "source": sc.src, "width": sc.width, "driver": driver,
+                               "triage": k,
                                "shrunk_source": shrink(h, clir, sc, driver),
                                "observed": {"format(p)": a[1], "format(format(p))": b[1] if b[0] == "OK" else b[0]},
                                "expected": "format(format(p,w),w) == format(p,w)",
